@@ -45,7 +45,10 @@ class FloatOps:
     def or_(self, *a): return any(a)
     def not_(self, a): return not a
     def implies(self, a, b): return (not a) or b
-    def eq(self, a, b): return math.isclose(a, b, rel_tol=self.rel, abs_tol=self.abs_)
+    def eq(self, a, b):
+        # comparisons with exactly 0 select branches of the documented laws (no load, dead input, 0 V setting): they are exact, as in the code
+        if (isinstance(b, (int, float)) and b == 0) or (isinstance(a, (int, float)) and a == 0): return a == b
+        return math.isclose(a, b, rel_tol=self.rel, abs_tol=self.abs_)
     def beq(self, a, b): return bool(a) == bool(b)
     def le(self, a, b): return a <= b + self.abs_ + self.rel * max(abs(a), abs(b))
     def lt(self, a, b): return a < b
